@@ -23,6 +23,7 @@ import (
 // provider manager, refresh manager), racing with an in-flight lookup.
 func VfDHTClose() {
 	vfSchedBudget(vfParam("SWITCH"))
+	vfSchedLIFO(vfBool("scheduleMostRecentlyWokenFirst")) // two deterministic base schedules: FIFO and its adversarial mirror
 	vfHashBits(3)
 	e := vfNewEnv(2, 2, 1)
 	d := e.dht
